@@ -151,11 +151,22 @@ example : FsInv exState ∧
 -- the step computed: the emptied directory `a/b/c/` is filled again, `a/n` is created zero-extended
 example : absFs (fsStep exState (.setPartial [("a/n".toList, 2, [7]), ("a/b/c/k".toList, 0, [9]), ("a/n".toList, 0, [5])])).1
     = [("a/b/c/k".toList, [9]), ("a/b/m".toList, [3]), ("a/n".toList, [5, 0, 7]), ("e".toList, [])] := by decide
--- an out-of-bounds ranged read: the implementation errs (`read_exact` / seek before the start), accepted
+-- an out-of-bounds ranged read: the implementation errs (every range is validated against the file length first)
 example : (fsStep exState (.getPartial "a/b/m".toList [.fromStart 0 (some 1), .suffix 3])).2 = .res .err := by decide
--- ... or gives the truncated slice (reading to the end from beyond the end), accepted as well
-example : (fsStep exState (.getPartial "a/b/m".toList [.fromStart 4 none])).2 = .res (.parts (some [[]])) ∧
+-- since the repair F-C08-10 also for empty reads from beyond the end (they used to give the truncated, empty slice):
+-- the outcome now EQUALS the ordered map's, the truncated alternative of `acceptable` is no longer used by this store
+example : (fsStep exState (.getPartial "a/b/m".toList [.fromStart 4 none])).2 = .res .err ∧
+    (fsStep exState (.getPartial "a/b/m".toList [.fromStart 4 (some 0)])).2 = .res .err ∧
+    (fsStep exState (.getPartial "a/b/m".toList [.fromStart 1 none, .fromStart 1 (some 0)])).2
+      = .res (.parts (some [[], []])) ∧
     (Spec.step (absFs exState) (.getPartial "a/b/m".toList [.fromStart 4 none])).2 = .err := by decide
+
+/-- ranged reads since the repair F-C08-10 (all ranges validated against the file length before any seek): the
+outcome is EXACTLY the ordered map's - the slices when every range is in bounds, an error otherwise -/
+theorem fs_getPartial_exact (s : FsState) (hi : FsInv s) (k : Key) (rs : List ByteRange) (hok : keyOk s k = true) :
+    (fsStep s (.getPartial k rs)).2 = .res (Spec.step (absFs s) (.getPartial k rs)).2 :=
+  getPartial_exact s hi k rs hok
+example : keyOk exState "a/b/m".toList = true := by decide
 
 /-- `get` returns what was last set -/
 theorem fs_get_after_set (s : FsState) (hi : FsInv s) (k : Key) (v : Bytes) (hok : keyOk s k = true) :
